@@ -410,6 +410,19 @@ func c20Transparency(c C20Case, cx *h.Ctx) *h.Failure {
 			return es
 		}(), c.At, c.Deep)
 		gpl = forceCT(gpl, lct) // the inserted typed empties take the coordinate type of their host (forceCT keeps the tags)
+		// GeoJSON carries Z: the inserted (typed) empties must not cost the other members their Z
+		if lct == 1 {
+			b1, e1 := gl.ToGeom().MarshalJSON()
+			b2, e2 := gpl.ToGeom().MarshalJSON()
+			if e1 != nil || e2 != nil || !json.Valid(b2) {
+				return diff("MarshalJSON (Z)", fmt.Sprint(e1), fmt.Sprint(e2, clip(string(b2), 200)))
+			}
+			d1, x1 := geom.UnmarshalGeoJSON(b1, geom.NoValidate{})
+			d2, x2 := geom.UnmarshalGeoJSON(b2, geom.NoValidate{})
+			if x1 != nil || x2 != nil || !multisetEq(positions(gm.FromGeom(d1)), positions(gm.FromGeom(d2))) {
+				return diff("GeoJSON positions (Z)", fmt.Sprintf("%v %s", x1, clip(string(b1), 200)), fmt.Sprintf("%v %s", x2, clip(string(b2), 200)))
+			}
+		}
 		f := func(p geom.XY) geom.XY { return geom.XY{X: p.X + 3, Y: 2 * p.Y} }
 		for _, op := range []struct {
 			name string
